@@ -314,6 +314,11 @@ TrState == /\ IsEvent("StateU")
                   /\ TableOK(tb, Cur[tb.name])
                   /\ (tb.name \in DOMAIN phys /\ Len(phys[tb.name].idx) = Len(tb.idx))
                         => StepOK(Ev.kind, phys[tb.name], tb)
+           \* a persist saves the base layer of every index of every table: nothing merged may stay
+           \* unsaved in a table the persist skipped (durable state = btrees only)
+           /\ Ev.kind = "persist" =>
+                \A n \in DOMAIN phys : (\A i \in 1..Len(Ev.tables) : Ev.tables[i].name # n) =>
+                    \A j \in 1..Len(phys[n].idx) : phys[n].idx[j].layers[1] = <<>>
            /\ phys' = [n \in DOMAIN phys \cup { Ev.tables[i].name : i \in 1..Len(Ev.tables) } |->
                         IF \E i \in 1..Len(Ev.tables) : Ev.tables[i].name = n
                         THEN Ev.tables[CHOOSE i \in 1..Len(Ev.tables) : Ev.tables[i].name = n]
